@@ -310,6 +310,9 @@ func (x *Exec) funcRef(f *FuncV) *Term {
 func (x *Exec) load(st *State, m memView, p *PtrV) Value {
 	t := p.Elem
 	if p.Global != nil && p.Kind == PRef && x.immutableGlobal(p.Global) {
+		if c := x.initConst(p.Global); c != nil && !(x.spec != nil && x.spec.Unknown[p.Global.Name()]) {
+			return x.constVal(c)
+		}
 		if _, isStruct := isStructType(t); !isStruct {
 			var ts []*Term
 			for _, c := range comps(t) {
@@ -522,3 +525,35 @@ func repoFieldHeap(name string) bool {
 	}
 	return false
 }
+
+// initConst: the constant a never-reassigned in-repo package-level variable is initialised with (nil if not a constant).
+func (x *Exec) initConst(g *ssa.Global) *ssa.Const {
+	if !inRepo(g.Pkg.Pkg.Path()) {
+		return nil
+	}
+	key := g.Pkg.Pkg.Path() + "." + g.Name()
+	if c, ok := initConstCache[key]; ok {
+		return c
+	}
+	var res *ssa.Const
+	n := 0
+	if init := g.Pkg.Func("init"); init != nil {
+		for _, b := range init.Blocks {
+			for _, in := range b.Instrs {
+				if s, ok := in.(*ssa.Store); ok && s.Addr == g {
+					n++
+					if c, ok := s.Val.(*ssa.Const); ok {
+						res = c
+					}
+				}
+			}
+		}
+	}
+	if n != 1 {
+		res = nil
+	}
+	initConstCache[key] = res
+	return res
+}
+
+var initConstCache = map[string]*ssa.Const{}
